@@ -156,6 +156,14 @@ def check_c19(seed, total):
             compared['skipped'] += 1
             continue
         ld, lp = cases[cid]['labels'], cases[pid]['labels']
+        # model-free: a request that is refused as a whole without `dump` (nothing but the item and one error) generates
+        # no code, so there is nothing `dump` could show — the expansion with `dump` has the same shape
+        kp, kd = [k for k, _ in rp], [k for k, _ in rd]
+        if kp == (['T', 'ERR'] if cases[pid].get('entry') == 'attr' else ['ERR']) and kd != kp:
+            compared['groups'] += 1
+            bad.append(dict(relation='a request that is refused as a whole has nothing to dump: with `dump` the expansion is still the item and that one error',
+                            a=cases[cid], b=cases[pid], shape_with_dump=kd, shape_without=kp))
+            continue
         if len(rd) != len(ld) or len(rp) != len(lp):
             compared['skipped'] += 1
             continue
